@@ -229,6 +229,20 @@ impl Clone for Rec {
     }
 }
 
+/// Copy + call-logging Clone (for Clone derived next to Copy)
+#[derive(Debug, PartialEq, Eq, Default, Copy)]
+pub struct RecC(pub u32);
+impl Clone for RecC {
+    fn clone(&self) -> RecC {
+        log(format!("clone({})", self.0));
+        RecC(self.0)
+    }
+    fn clone_from(&mut self, src: &RecC) {
+        log(format!("clone_from({}<-{})", self.0, src.0));
+        self.0 = src.0;
+    }
+}
+
 /// generic recorder used for `X<T>` instantiations
 #[derive(Debug, PartialEq, Eq, Default)]
 pub struct RecG<T>(pub u32, pub core::marker::PhantomData<T>);
